@@ -370,7 +370,7 @@ func handleFQ(f []string) string {
 	fqFan.Install(size)
 	ser := remote.NewProtoSerializer()
 	recv := address.New("nobody", "c27fq", "127.0.0.1", fqPort).String()
-	next, accepted := 0, 0
+	next, lastQueued := 0, ""
 	for _, op := range f[2:] {
 		switch {
 		case op == "d":
@@ -392,8 +392,8 @@ func handleFQ(f []string) string {
 			}
 			before := fqFan.QueueLen()
 			fqFan.Enqueue("127.0.0.1:1", msgs)
-			if fqFan.QueueLen() > before {
-				accepted += n
+			if fqFan.QueueLen() > before && n > 0 {
+				lastQueued = strconv.Itoa(next - 1)
 			}
 		default:
 			fqFan.SetShuttingDown(false)
@@ -404,31 +404,34 @@ func handleFQ(f []string) string {
 	q := fqFan.QueueLen()
 	fqFan.SetShuttingDown(false)
 	fqFan.Drain()
-	// the dead-letter actor publishes asynchronously: wait for the expected number of events
+	// the dead-letter actor publishes asynchronously but in mailbox order: once the LAST message that
+	// went through the queue has shown up, everything handed off before it has too
 	var dead []string
 	deadline := time.Now().Add(10 * time.Second)
 	prefix := strconv.Itoa(fqCase) + "/"
-	for len(dead) < accepted && time.Now().Before(deadline) {
+	sawLast := lastQueued == ""
+	poll := func() {
 		for m := range fqSub.Iterator() {
 			if dl, ok := m.Payload().(*actor.Deadletter); ok {
 				if v, ok := dl.Message().(*wrapperspb.StringValue); ok && strings.HasPrefix(v.GetValue(), prefix) {
-					dead = append(dead, strings.TrimPrefix(v.GetValue(), prefix))
+					id := strings.TrimPrefix(v.GetValue(), prefix)
+					dead = append(dead, id)
+					if id == lastQueued {
+						sawLast = true
+					}
 				}
 			}
 		}
-		if len(dead) < accepted {
+	}
+	for !sawLast && time.Now().Before(deadline) {
+		poll()
+		if !sawLast {
 			time.Sleep(2 * time.Millisecond)
 		}
 	}
-	// a little grace for dead letters that should NOT exist
+	// a little grace for dead letters that were not expected
 	time.Sleep(5 * time.Millisecond)
-	for m := range fqSub.Iterator() {
-		if dl, ok := m.Payload().(*actor.Deadletter); ok {
-			if v, ok := dl.Message().(*wrapperspb.StringValue); ok && strings.HasPrefix(v.GetValue(), prefix) {
-				dead = append(dead, strings.TrimPrefix(v.GetValue(), prefix))
-			}
-		}
-	}
+	poll()
 	return fmt.Sprintf("cap=%d q=%d dead=%s", capv, q, strings.Join(dead, ","))
 }
 
